@@ -16,6 +16,7 @@ there the discipline is proved (Lemmas/EventDisc, EventKeys, MptRound) and only 
 import Verif.Lemmas.MptStoreTrie
 import Verif.Lemmas.MptRound
 import Verif.Lemmas.MergeRound
+import Verif.Lemmas.OrderChanges
 import Verif.Lemmas.RefKeyInj
 namespace Verif.Props.C04
 open Verif.Mpt Verif.MptStore Verif.MptStore.Collector
@@ -186,18 +187,20 @@ example : KeyHyps (fun x => (0 : UInt8) :: x) (fun r => r = ⟨[], .leaf 1 [3] [
     the block trie replays the child's pending changes in the order `orderChanges` computes, then its deletes
     (`mergeChanges`), and saves.  The event discipline is PROVED for all of it (own operations: Lemmas/EventDisc;
     the replay: Lemmas/Collector2, MergeCalls).  Remaining hypotheses: canonical resolvable start tree, key injectivity
-    on the references involved, and `GoodOrder` of the replay order (what `orderChanges` is for: no change replaces a
-    key after a change (re)created it; proved to be a permutation, `GoodOrder` itself is not yet derived). -/
+    on the references involved, and that `orderChanges` does not get stuck on the child's changes (`orderStuck = false`,
+    an executable test: no cycle of replacements; then its output is a permutation in which no change replaces a key
+    after a change (re)created it, `orderChanges_good`; the model driver evaluates the test at every merge). -/
 theorem C04_complete_one_merge (H : Bytes → Bytes) (P0 : PStore) (t0 t1 t2 : Node) (b0 c0 : Trie) (v : Nat)
     (esP esC : List Event)
     (hfresh : b0.cc.changes = [] ∧ b0.cc.deletes = []) (hfreshC : c0.cc.changes = [] ∧ c0.cc.deletes = [])
     (h0 : Resolves H (Map.get P0.nodes) t0 []) (hw : WF t0)
     (hP : RoundEvents v t0 esP t1) (hC : RoundEvents v t1 esC t2)
-    (hgood : GoodOrder (Ref.key H) (orderChanges H (c0.applyEvents H esC).cc.getChanges))
+    (hstuck : orderStuck H (c0.applyEvents H esC).cc.getChanges = false)
     (hU : KeyInjOn H (fun r => r ∈ refs t0 [] ∨ r ∈ eventRefs esP ∨ r ∈ eventRefs esC)) :
     Resolves H (Map.get (P0.applyAll (saveStream H (b0.applyEvents H
       (esP ++ mergeEvents (orderChanges H (c0.applyEvents H esC).cc.getChanges) (c0.applyEvents H esC).cc.getDeletes)))).nodes)
       t2 [] := by
+  have hgood := orderChanges_good H _ hstuck
   obtain ⟨hd, hc, hsubE⟩ := one_merge_discipline H hP hC hw c0 hfreshC _ (orderChanges_perm H _) hgood hU
   obtain ⟨_, hcrP, hw1⟩ := round_ok hP hw (fun r => r ∈ refs t0 []) (fun _ h => h)
   obtain ⟨_, hcrC, _⟩ := round_ok hC hw1 (fun r => r ∈ refs t1 []) (fun _ h => h)
